@@ -384,6 +384,174 @@ theorem _root_.KafVerif.C37.lowerGo_ascii (s : Bytes) (h : ∀ b ∈ s, b < 128)
     exact this
   | case4 => rfl
 
+/-! ### ACL patterns: classes, escapes, malformed patterns, blank entries (seeded changes C37-r3-1, C37-r3-2) -/
+
+/-- a pattern made only of a character class IS a glob: deny `audit-[0-9]` denies `audit-7` (not `audit-x`), also under an allow
+list that covers it; negation, escapes inside a class and a backslash escape outside work as in `path.Match` -/
+theorem _root_.KafVerif.C37.class_pattern_is_glob :
+    allows ⟨[], [str "audit-[0-9]"]⟩ (str "audit-7") = false ∧
+    allows ⟨[str "audit-*"], [str "audit-[0-9]"]⟩ (str "audit-3") = false ∧
+    allows ⟨[str "audit-*"], [str "audit-[0-9]"]⟩ (str "audit-x") = true ∧
+    allows ⟨[str "audit-[^0-9]"], []⟩ (str "audit-7") = false ∧
+    allows ⟨[str "audit-[^0-9]"], []⟩ (str "audit-x") = true ∧
+    allows ⟨[], [str "audit-\\7"]⟩ (str "audit-7") = false ∧
+    allows ⟨[str "audit-[\\0-\\9]"], []⟩ (str "audit-7") = true ∧
+    allowShowTopics ⟨[str "[*]"], []⟩ = true := by decide
+
+/-- a malformed pattern (`ErrBadPattern`) matches no topic except the one spelled like the pattern itself (the `pattern == topic`
+fall-back of `matchPatterns`) -/
+theorem _root_.KafVerif.C37.bad_pattern_matches_only_itself :
+    pathMatch (str "audit-[") (str "audit-7") = none ∧ pathMatch (str "orders\\") (str "orders") = none ∧
+    matchPatterns [str "audit-["] (str "audit-7") = false ∧ matchPatterns [str "[orders"] (str "[orders") = true ∧
+    allows ⟨[str "[orders", str "t"], []⟩ (str "orders") = false := by decide
+
+/-- `matchPatterns` with the "plain topic name" fast path of seeded change C37-r3-1: a pattern without `*` and `?` is compared
+literally and `path.Match` is skipped -/
+def matchPatternsFast (patterns : List Bytes) (topic : Bytes) : Bool :=
+  patterns.any fun pattern =>
+    let p := trimSpace pattern
+    !p.isEmpty && (p == [42] ||
+      (if p.contains 42 || p.contains 63 then globMatch p topic || p == topic else p == topic))
+
+/-- … which is NOT the same function: it un-denies a topic -/
+theorem _root_.KafVerif.C37.literal_fast_path_differs :
+    ∃ ps t, matchPatterns ps t = true ∧ matchPatternsFast ps t = false :=
+  ⟨[str "audit-[0-9]"], str "audit-7", by decide, by decide⟩
+
+/-- a list of blank entries matches nothing -/
+theorem matchPatterns_blank (ps : List Bytes) (h : ∀ p ∈ ps, trimSpace p = []) (t : Bytes) :
+    matchPatterns ps t = false := by
+  simp only [matchPatterns, List.any_eq_false]
+  intro p hp
+  simp [h p hp]
+
+/-- **fail closed.** An allow list that is configured (non-empty) but holds only blank entries allows NO topic and no listing,
+whatever the deny list is (`proxy.New` passes the configured lists on unchanged: `len(a.Allow) == 0` is asked of the list as
+configured) -/
+theorem _root_.KafVerif.C37.blank_allow_fails_closed (a : Acl) (hne : a.allow ≠ [])
+    (hb : ∀ p ∈ a.allow, trimSpace p = []) :
+    (∀ t, allows a t = false) ∧ allowShowTopics a = false := by
+  have he : a.allow.isEmpty = false := by cases h : a.allow <;> simp_all
+  refine ⟨fun t => ?_, ?_⟩
+  · unfold allows; split
+    · rfl
+    · simp [he, matchPatterns_blank a.allow hb t]
+  · unfold allowShowTopics; split
+    · rfl
+    · simp [he, matchPatterns_blank a.allow hb [42]]
+
+/-- a configured deny list — blank entries or not — forbids listing all topics -/
+theorem _root_.KafVerif.C37.nonempty_deny_forbids_listing (a : Acl) (hne : a.deny ≠ []) : allowShowTopics a = false := by
+  have he : a.deny.isEmpty = false := by cases h : a.deny <;> simp_all
+  simp [allowShowTopics, he]
+
+/-- … hence, with such an allow list, whatever the proxy forwards makes the upstream touch no topic at all -/
+theorem _root_.KafVerif.C37.blank_allow_forwards_nothing (e : Env) (a : Acl) (hne : a.allow ≠ [])
+    (hb : ∀ p ∈ a.allow, trimSpace p = []) (enabled : Bool) (max : Nat) (ops : List (Bytes × Bool)) (q t : Bytes)
+    (h : (q, some t) ∈ run e a ⟨enabled, max, []⟩ ops) : upstreamView e t = ([], false) := by
+  have hs := (KafVerif.C37.forward_sound e a enabled max ops q t h).2
+  have hc := KafVerif.C37.blank_allow_fails_closed a hne hb
+  have h1 : (upstreamView e t).1 = [] := by
+    cases hts : (upstreamView e t).1 with
+    | nil => rfl
+    | cons x xs => have := hs.1 x (by simp [hts]); simp [hc.1 x] at this
+  have h2 : (upstreamView e t).2 = false := by
+    cases hl : (upstreamView e t).2 with
+    | false => rfl
+    | true => have := hs.2 hl; simp [hc.2] at this
+  exact Prod.ext h1 h2
+
+/-- `cleanPatterns` of seeded change C37-r3-2 (trim, drop blank entries) applied in `proxy.New` -/
+def cleanPatterns (ps : List Bytes) : List Bytes := (ps.map trimSpace).filter (fun p => !p.isEmpty)
+
+/-- … turns the fail-closed configuration `allow: [""]` into "no ACL": every topic allowed -/
+theorem _root_.KafVerif.C37.dropping_blanks_opens_acl (t : Bytes) :
+    allows ⟨[[]], []⟩ t = false ∧ allows ⟨cleanPatterns [[]], cleanPatterns []⟩ t = true ∧
+    allowShowTopics ⟨[[]], []⟩ = false ∧ allowShowTopics ⟨cleanPatterns [[]], cleanPatterns []⟩ = true := by
+  refine ⟨(KafVerif.C37.blank_allow_fails_closed ⟨[[]], []⟩ (by simp) (by simp [trimSpace, trimLeft, trimRight])).1 t, ?_, by decide, by decide⟩
+  simp [cleanPatterns, trimSpace, trimLeft, trimRight, allows, matchPatterns]
+
+/-! ### `path.Match` on plain names -/
+
+/-- no `*`, `?`, `[`, `\\` -/
+def Plain (p : Bytes) : Prop := ∀ c ∈ p, c ≠ 42 ∧ c ≠ 63 ∧ c ≠ 91 ∧ c ≠ 92
+
+theorem scanLen_plain (p : Bytes) (h : Plain p) : scanLen false p = p.length := by
+  induction p with
+  | nil => rfl
+  | cons c r ih =>
+    have hc := h c (by simp)
+    have hr : Plain r := fun x hx => h x (by simp [hx])
+    have := ih hr
+    unfold scanLen
+    split <;> simp_all <;> omega
+
+theorem dropStars_plain (c : UInt8) (r : Bytes) (h : c ≠ 42) : dropStars (c :: r) = (false, c :: r) := by
+  unfold dropStars
+  split <;> simp_all
+
+theorem matchChunkF_plain (f : Nat) (ch s : Bytes) (failed : Bool) (h : Plain ch) (hf : ch.length < f) :
+    matchChunkF f ch s failed = some (if !failed && ch.isPrefixOf s then some (s.drop ch.length) else none) := by
+  induction ch generalizing f s failed with
+  | nil =>
+    cases f with
+    | zero => omega
+    | succ f => cases failed <;> simp [matchChunkF]
+  | cons c r ih =>
+    cases f with
+    | zero => simp at hf
+    | succ f =>
+      have hc := h c (by simp)
+      have hr : Plain r := fun x hx => h x (by simp [hx])
+      have hf' : r.length < f := by simp at hf; omega
+      unfold matchChunkF
+      simp only [hc.2.2.1, hc.2.1, hc.2.2.2, beq_iff_eq, if_false]
+      cases s with
+      | nil => simp [ih f [] true hr hf']
+      | cons d t =>
+        cases failed with
+        | true => simp [ih f (d :: t) true hr hf']
+        | false =>
+          simp [ih f t (c != d) hr hf']
+
+theorem matchChunk_plain (ch s : Bytes) (h : Plain ch) :
+    matchChunk ch s = some (if ch.isPrefixOf s then some (s.drop ch.length) else none) := by
+  simp [matchChunk, matchChunkF_plain (ch.length + 1) ch s false h (by omega)]
+
+theorem isPrefixOf_drop_nil (p n : Bytes) : (p.isPrefixOf n && (n.drop p.length).isEmpty) = (p == n) := by
+  induction p generalizing n with
+  | nil => cases n <;> simp
+  | cons c r ih =>
+    cases n with
+    | nil => simp
+    | cons d t =>
+      simp only [List.isPrefixOf, List.length_cons, List.drop_succ_cons, Bool.and_assoc, ih t]
+      simp [List.cons_beq_cons]
+
+/-- **path.Match on a plain name.** A pattern without `*`, `?`, `[`, `\\` matches exactly itself (never `ErrBadPattern`): on
+such patterns the literal comparison of seeded change C37-r3-1 is right — the set `{*, ?}` it tests is too small. -/
+theorem _root_.KafVerif.C37.pathMatch_plain (p n : Bytes) (h : Plain p) : pathMatch p n = some (p == n) := by
+  cases p with
+  | nil => cases n <;> simp [pathMatch, pathMatchF]
+  | cons c r =>
+    have hc := h c (by simp)
+    simp only [pathMatch, List.length_cons]
+    unfold pathMatchF
+    simp only [dropStars_plain c r hc.1, scanLen_plain (c :: r) h, List.take_length, List.drop_length,
+      matchChunk_plain (c :: r) n h]
+    have key := isPrefixOf_drop_nil (c :: r) n
+    rw [← key]
+    generalize List.drop (c :: r).length n = t
+    cases hp : (c :: r).isPrefixOf n
+    · simp [restValid]
+    · cases t with
+      | nil => simp [pathMatchF]
+      | cons x xs => simp [restValid]
+
+/-- … so `matchPatterns` and the fast path of C37-r3-1 agree on lists of plain names -/
+theorem _root_.KafVerif.C37.plain_patterns_globMatch (p n : Bytes) (h : Plain p) : globMatch p n = (p == n) := by
+  simp [globMatch, KafVerif.C37.pathMatch_plain p n h]
+
 /-! ### non-vacuity -/
 
 set_option maxRecDepth 100000 in
